@@ -7,6 +7,7 @@
 #include <errno.h>
 #include <fcntl.h>
 #include <locale.h>
+#include <set>
 #include <signal.h>
 #include <unistd.h>
 #include <sys/mman.h>
@@ -441,6 +442,43 @@ static void libc_probe(int idx) {
     }
     on_event();
 }
+// ---- heap guard: every block the library gets from malloc / calloc / realloc is followed by a red zone; a released
+// block is poisoned and kept in quarantine until the call that released it returns. Overwritten red zones and
+// overwritten poison are counted per call (C20 judges them in faulted executions).
+struct Quar { void *p; size_t size; int task; };
+static std::vector<Quar> g_quar;
+NOSAN static void rz_fill(void *p, size_t size) { memset((uint8_t *)p + size, 0xA5, HEAP_RZ); }
+NOSAN static bool rz_ok(const void *p, size_t size) {
+    const uint8_t *z = (const uint8_t *)p + size;
+    for (int i = 0; i < HEAP_RZ; i++)
+        if (z[i] != 0xA5) return false;
+    return true;
+}
+static AllocRec *live_rec(void *p) {
+    for (size_t i = g_live.size(); i-- > 0;)
+        if (g_live[i].p == p) return &g_live[i];
+    return nullptr;
+}
+static bool in_quarantine(void *p) {
+    for (auto &q : g_quar)
+        if (q.p == p) return true;
+    return false;
+}
+// end of a call of task tid (or of the pass, tid < 0): poison intact? then really release
+static uint32_t quarantine_flush(int tid) {
+    uint32_t bad = 0;
+    for (size_t i = 0; i < g_quar.size();) {
+        if (tid >= 0 && g_quar[i].task != tid) { i++; continue; }
+        const uint8_t *b = (const uint8_t *)g_quar[i].p;
+        bool ok = true;
+        for (size_t k = 0; k < g_quar[i].size + HEAP_RZ && ok; k++) ok = b[k] == 0xDD;
+        if (!ok) bad++;
+        free(g_quar[i].p);
+        forget_freed(g_quar[i].p);
+        g_quar.erase(g_quar.begin() + i);
+    }
+    return bad;
+}
 struct AllocCall {
     int kind; // 0 malloc, 1 calloc, 2 realloc, 3 free
     size_t a, b;
@@ -456,6 +494,16 @@ static void alloc_body(void *p_) {
     if (c->kind == 3) {
         if (c->old) {
             sim_log(LOG_FREE, t->id, 0);
+            AllocRec *rec = live_rec(c->old);
+            if (rec && rec->guarded) {
+                if (!rz_ok(rec->p, rec->size)) { t->res[t->cur_op].heap_overrun++; sim_log(LOG_FAULT, 10, 0); }
+                memset(rec->p, 0xDD, rec->size + HEAP_RZ);
+                g_quar.push_back({rec->p, rec->size, t->id});
+                untrack(c->old);
+                g_freed.push_back(c->old);
+                t->in_op = save;
+                return; // released for real when the call returns
+            }
             if (untrack(c->old)) g_freed.push_back(c->old);
             else if (std::find(g_freed.begin(), g_freed.end(), c->old) != g_freed.end()) {
                 // the library releases a block it has already released: record it, do not corrupt the heap
@@ -477,23 +525,57 @@ static void alloc_body(void *p_) {
         return;
     }
     if (alloc_request(t, c->ra, &s)) errno = ENOMEM;
-    else if (c->kind == 0) {
-        c->result = malloc(c->a);
-        forget_freed(c->result);
-        g_live.push_back({c->result, c->a, s, t->id, t->cur_op});
-    } else if (c->kind == 1) {
-        c->result = calloc(c->a, c->b);
-        forget_freed(c->result);
-        g_live.push_back({c->result, c->a * c->b, s, t->id, t->cur_op});
+    else if (c->kind == 0 || c->kind == 1) {
+        size_t n = c->a;
+        bool ovf = false;
+        if (c->kind == 1) ovf = __builtin_mul_overflow(c->a, c->b, &n);
+        if (ovf || n > (size_t)1 << 40) { errno = ENOMEM; t->in_op = save; return; }
+        c->result = malloc(n + HEAP_RZ);
+        if (c->result) {
+            if (c->kind == 1) memset(c->result, 0, n);
+            rz_fill(c->result, n);
+            forget_freed(c->result);
+            g_live.push_back({c->result, n, s, t->id, t->cur_op, true});
+        }
     } else {
+        if (c->a == 0 && c->old) { // realloc(p, 0) releases p (glibc)
+            AllocCall f = {3, 0, 0, c->old, 0, nullptr};
+            alloc_body(&f);
+            t->in_op = save;
+            return;
+        }
         // keep the attribution of the block to the op that first allocated it
         int owner_task = t->id, owner_op = t->cur_op;
-        for (auto &a : g_live)
-            if (a.p == c->old) { owner_task = a.task; owner_op = a.op; }
-        if (c->old) untrack(c->old);
-        c->result = realloc(c->old, c->a);
-        forget_freed(c->result);
-        g_live.push_back({c->result, c->a, s, owner_task, owner_op});
+        AllocRec *rec = c->old ? live_rec(c->old) : nullptr;
+        void *old = c->old;
+        if (rec) {
+            owner_task = rec->task;
+            owner_op = rec->op;
+            if (rec->guarded && !rz_ok(rec->p, rec->size)) { t->res[t->cur_op].heap_overrun++; sim_log(LOG_FAULT, 10, 0); }
+            if (!rec->guarded) {
+                // a block that came from a libc convenience allocator: move it to a guarded one
+                void *np = malloc(c->a + HEAP_RZ);
+                if (np) { memcpy(np, old, rec->size < c->a ? rec->size : c->a); free(old); }
+                untrack(old);
+                c->result = np;
+                old = nullptr;
+            }
+        } else if (old && in_quarantine(old)) {
+            // the library grows a block it has released
+            t->res[t->cur_op].heap_uaf++;
+            sim_log(LOG_FAULT, 11, 0);
+            old = nullptr;
+        }
+        if (c->a > (size_t)1 << 40) { errno = ENOMEM; t->in_op = save; return; }
+        if (!c->result) {
+            if (old && rec) untrack(old);
+            c->result = realloc(old, c->a + HEAP_RZ);
+        }
+        if (c->result) {
+            rz_fill(c->result, c->a);
+            forget_freed(c->result);
+            g_live.push_back({c->result, c->a, s, owner_task, owner_op, true});
+        }
     }
     t->in_op = save;
 }
@@ -530,7 +612,12 @@ void *__wrap_realloc(void *old, size_t n) {
 }
 void __wrap_free(void *p) {
     Task *t = t_self;
-    if (!t || !t->op) { free(p); return; }
+    if (!t || !t->op) {
+        // library code releasing outside a call: a thread-exit destructor, or a renewal of the thread (oracle H)
+        if (t && p && g_sim.in_pass) untrack(p);
+        free(p);
+        return;
+    }
     AllocCall c = {3, 0, 0, p, 0, nullptr};
     alt_call(alloc_body, &c);
     on_event();
@@ -583,6 +670,20 @@ static int sim_lock_release(void *addr) {
     on_event();
     return 0;
 }
+std::set<std::string> g_once_syms; // static objects written by one-time initialisers (exempt from S)
+static void once_diff(void *after) {
+    Task *t = t_self;
+    bool save = t->in_op;
+    t->in_op = false;
+    if (!after) g_lib.diff_cur(t->res[t->cur_op].footprint);
+    else {
+        std::vector<int> init;
+        g_lib.diff_cur(init);
+        for (int k : init)
+            if (g_once_syms.insert(g_lib.sym_key(k)).second) { printf("ONCE %s\n", g_lib.sym_key(k).c_str()); fflush(stdout); }
+    }
+    t->in_op = save;
+}
 struct SimOnce { void *addr; int state; int owner; }; // 0 not started, 1 running, 2 done
 static std::vector<SimOnce> g_onces;
 static int sim_once(void *ctl, void (*fn)(void)) {
@@ -597,7 +698,13 @@ static int sim_once(void *ctl, void (*fn)(void)) {
             o->state = 1;
             o->owner = t->id;
             size_t idx = o - g_onces.data();
+            // One-time initialisation under pthread_once / call_once is not "state kept between calls": what the
+            // callback writes to static storage is exempt from the state invariant S (and listed in the evidence).
+            // What the call wrote before entering the callback is attributed to it as usual.
+            bool track = g_sim.cfg.track_static && t->op;
+            if (track) alt_call(once_diff, (void *)0);
             fn();
+            if (track) alt_call(once_diff, (void *)1);
             g_onces[idx].state = 2;
             return 0;
         }
@@ -986,6 +1093,7 @@ static void finish_digest(Task &t, OpResult &r) {
     for (auto &c : r.hcalls) { h.u64((uint64_t)c.hid); h.u64((uint64_t)(int64_t)c.code); h.u64(c.msgh); }
     h.str(r.out);
     h.u64(r.double_free);
+    h.u64(((uint64_t)r.heap_overrun << 32) | r.heap_uaf);
     r.digest_noerr = h.h;
     h.u64((uint64_t)(int64_t)r.err);
     r.digest_core = h.h;
@@ -1014,7 +1122,11 @@ static void run_one_op(Task &t, int i, const Op &op) {
     r.nev = t.ev;
     g_sim.events += t.ev;
     for (auto &a : g_live)
-        if (a.task == t.id && a.op == i) r.outstanding++;
+        if (a.task == t.id && a.op == i) {
+            r.outstanding++;
+            if (a.guarded && !rz_ok(a.p, a.size)) r.heap_overrun++;
+        }
+    r.heap_uaf += quarantine_flush(t.id);
     t.op = nullptr;
     if (g_sim.cfg.track_static) g_lib.diff_cur(r.footprint);
     finish_digest(t, r);
@@ -1105,6 +1217,7 @@ void run_pass(const Plan &plan, const PassCfg &cfg, Strategy &strat, PassResult 
     g_lib.restore_pristine();
     for (auto &a : g_live) free(a.p);
     g_live.clear();
+    quarantine_flush(-1);
     g_freed.clear();
     g_locks.clear();
     g_onces.clear();
@@ -1182,6 +1295,9 @@ void run_pass(const Plan &plan, const PassCfg &cfg, Strategy &strat, PassResult 
             if (t->res[i].done) last = (int)i;
         if (last >= 0) finish_digest(*t, t->res[last]);
     }
+    // blocks still live now that every thread has ended and run its exit handlers: released by nobody
+    for (auto &a : g_live)
+        if (a.task >= 0 && a.task < (int)g_sim.tasks.size() && a.op >= 0 && a.op < (int)g_sim.tasks[a.task]->res.size()) g_sim.tasks[a.task]->res[a.op].leaked++;
     out.res.clear();
     for (Task *t : g_sim.tasks) out.res.push_back(t->res);
     out.recorded = g_sim.recorded;
@@ -1300,6 +1416,10 @@ int RandomStrategy::first() {
 static void fatal_handler(int sig) {
     static volatile int once = 0;
     if (once++) _exit(100 + sig);
+    // the hook writes a replay file; if the crash left a libc lock held (heap corruption detected inside malloc) it
+    // would wait for ever: give it three seconds
+    signal(SIGALRM, SIG_DFL);
+    alarm(3);
     if (g_crash_hook) g_crash_hook(sig);
     _exit(100 + sig);
 }
